@@ -659,6 +659,22 @@ class TokenizerAnalysis:
         s.inv, s.taint, s.rounds = inv, taint, rounds
         t_inv = time.time() - t0
         obligations, alarms, nleaves = s.check_obligations(c04)
+        # a path the interpreter modelled imprecisely (a branch on a value it does not know) may have made abstract states
+        # "reachable" that are not: an obligation that fails on such a state is not a decided violation, even when the failing path
+        # itself is precise.  With any imprecise path in the run, every failure of the run is reported as undecided.
+        imp_ = None
+        for lfs in s.leaf_cache.values():
+            for lf in (lfs if isinstance(lfs, (list, tuple)) else [lfs]):
+                why_ = getattr(lf, 'imprecise', None)
+                if why_:
+                    imp_ = why_
+                    break
+            if imp_:
+                break
+        if imp_:
+            for al in alarms:
+                if not al.get('imprecise'):
+                    al['imprecise'] = 'another path of this run is modelled imprecisely (%s)' % (str(imp_)[:140])
         res = dict(mode=mode, c04=c04, rounds=rounds, keys=len(inv), atoms=len(s.ATOMS), leaves=nleaves,
                    obligations=obligations, alarms=alarms, wall_s=round(time.time() - t0, 2), wall_inv_s=round(t_inv, 2),
                    invariants={s.show_key(k): s.tight(v) for k, v in inv.items()},
